@@ -88,3 +88,18 @@ Theorem C19_xhtml_constant_refuted :
   xhtml_ns <> [104; 116; 116; 112; 58; 47; 47; 119; 119; 119; 46; 119; 51; 46; 111; 114; 103; 47; 49; 57; 57; 57; 47; 120; 104; 116; 109; 108].
 Proof. vm_compute. discriminate. Qed.
 Print Assumptions C19_xhtml_constant_refuted.
+
+(* what the HTML5 serialiser writes for a declaration: xmlns="uri" only for the element's own namespace, xmlns:p="uri" only for
+   a prefix bound to a namespace (never "no namespace", which has no spelling, and never the implicit binding of xml), the
+   URI escaped as an attribute value; or nothing.  The serialiser state does not change *)
+Theorem C19_declaration_is_written_in_a_form_the_parser_accepts :
+  forall nm hn cdata st z p ns st' t,
+    hrender nm hn cdata st z (OPrefix p ns) = HOk (st', t) ->
+    st' = st
+    /\ (token_text t = []
+        \/ (p = n_empty_prefix nm /\ (exists name, element_of z = Some name /\ n_ns_of_name nm name = ns)
+            /\ token_text t = [32] ++ s_xmlns ++ [61; 34] ++ serialize_attribute (n_ns_str nm ns) ++ [34])
+        \/ (p <> n_empty_prefix nm /\ ns <> n_no_ns nm /\ ~ (p = n_xml_prefix nm /\ ns = n_xml_ns nm)
+            /\ token_text t = [32] ++ s_xmlns ++ [58] ++ n_prefix_str nm p ++ [61; 34] ++ serialize_attribute (n_ns_str nm ns) ++ [34])).
+Proof. exact hprefix_token_spec. Qed.
+Print Assumptions C19_declaration_is_written_in_a_form_the_parser_accepts.
